@@ -97,10 +97,10 @@ func TestExplore(t *testing.T) {
 		name         string
 		nsess, depth int
 	}
-	tables := []tcfg{{"sync-2", 2, 8}, {"sync-3", 3, 7}, {"sync-4", 4, 6}}
+	tables := []tcfg{{"sync-2", 2, 8}, {"sync-3", 3, 7}, {"sync-4", 4, 6}, {"link-2", 2, 8}}
 	maxNodes, nchains, chainLen := 60000, 12, 120
 	if tier == "thorough" {
-		tables = []tcfg{{"sync-2", 2, 11}, {"sync-3", 3, 9}, {"sync-4", 4, 8}}
+		tables = []tcfg{{"sync-2", 2, 11}, {"sync-3", 3, 9}, {"sync-4", 4, 8}, {"link-2", 2, 10}}
 		maxNodes, nchains, chainLen = 400000, 60, 400
 	}
 	if v := os.Getenv("VERIF_MAXNODES"); v != "" {
